@@ -16,7 +16,7 @@ WORK = os.path.join(VERIF, "work")
 BIN = os.path.join(WORK, "bin")
 COQ = os.path.join(VERIF, "coq")
 FAMILIES = ["main", "walk", "emph", "stream", "filter", "recog", "misc"]
-NOT_IN_PROJECT = {"Extract.v"}
+NOT_IN_PROJECT = {"Extract.v", "ExtractW.v"}
 
 GOENV = dict(os.environ, GOFLAGS="-mod=mod", GOPROXY="off", GOSUMDB="off", GOTOOLCHAIN="local",
              GOCACHE=os.environ.get("GOCACHE", os.path.join(WORK, "gocache")))
@@ -123,14 +123,15 @@ def prepare(force=False, verbose=False):
         spath = os.path.join(WORK, "build_status.json")
         if not force and os.path.exists(spath):
             st = json.load(open(spath))
-            if st.get("key") == key and os.path.exists(os.path.join(BIN, "harness")) and os.path.exists(os.path.join(BIN, "drv")):
+            if st.get("key") == key and all(os.path.exists(os.path.join(BIN, b)) for b in ("harness", "drv", "drvwalk")):
                 st["cached"] = True
                 return st
         t0 = time.time()
         status = {"key": key, "cached": False, "errors": []}
         godir = os.path.join(VERIF, "go")
         shutil.copy(os.path.join(REPO, "go.sum"), os.path.join(godir, "go.sum"))
-        rc, out = sh("go build -tags verif -o %s/harness ./harness && go build -o %s/gen ./gen" % (BIN, BIN), cwd=godir, env=GOENV,
+        shutil.copy(os.path.join(REPO, "go.sum"), os.path.join(godir, "go.sum"))
+        rc, out = sh("go build -tags verif -o %s/harness ./harness && go build -o %s/gen ./gen && (cd eff && go build -o %s/eff .)" % (BIN, BIN, BIN), cwd=godir, env=GOENV,
                      log=os.path.join(WORK, "gobuild.log"))
         status["go_build"] = rc
         if rc != 0:
@@ -146,6 +147,10 @@ def prepare(force=False, verbose=False):
         rc, out = sh([os.path.join(BIN, "gen"), os.path.join(gen_tmp, "Tables.v"), REPO, gen_tmp], env=GOENV, log=os.path.join(WORK, "gen.log"))
         status["gen"] = rc
         status["gen_changed"] = []
+        if rc == 0:
+            rc, out2 = sh([os.path.join(BIN, "eff"), REPO, os.path.join(gen_tmp, "GenEffects.v")], env=GOENV, log=os.path.join(WORK, "eff.log"))
+            out += out2
+            status["eff"] = out2.strip().split("\n")[:12]
         if rc != 0:
             status["errors"].append("generator failed: " + out[-2000:])
         else:
@@ -170,6 +175,22 @@ def prepare(force=False, verbose=False):
         else:
             status["driver"] = 1
             status["errors"].append("model does not compile: " + ",".join(status["coq"]["main"]["missing"]))
+        # walk model driver (C18)
+        wdir = os.path.join(WORK, "ocamlw")
+        os.makedirs(wdir, exist_ok=True)
+        if not status["coq"]["walk"]["missing"]:
+            rc, out = sh("timeout 600 coqc -Q %s '' %s" % (os.path.join(COQ, "walk"), os.path.join(COQ, "walk", "ExtractW.v")), cwd=wdir,
+                         log=os.path.join(WORK, "extractw.log"))
+            if rc == 0:
+                shutil.copy(os.path.join(VERIF, "ocaml", "drvwalk.ml"), os.path.join(wdir, "drvwalk.ml"))
+                rc, out = sh("ocamlfind ocamlopt -O3 -w -a walkmodel.mli walkmodel.ml drvwalk.ml -o %s/drvwalk" % BIN, cwd=wdir,
+                             log=os.path.join(WORK, "ocamlw.log"))
+            status["driver_walk"] = rc
+            if rc != 0:
+                status["errors"].append("walk extraction/driver build failed: " + out[-2000:])
+        else:
+            status["driver_walk"] = 1
+            status["errors"].append("walk model does not compile: " + ",".join(status["coq"]["walk"]["missing"]))
         status["build_s"] = round(time.time() - t0, 1)
         json.dump(status, open(spath, "w"), indent=1)
         return status
